@@ -99,6 +99,28 @@ def module_state(ctx, modnames):
             continue
         qidx = qualname_index(src.tree)
 
+        # classes of the module whose methods (other than __init__) mutate what self holds
+        stateful_classes = {}
+        for cnode in [n for n in src.tree.body if isinstance(n, ast.ClassDef)]:
+            for meth in [n for n in cnode.body if isinstance(n, (ast.FunctionDef, ast.AsyncFunctionDef)) and n.name not in ("__init__", "__new__", "__post_init__")]:
+                selfname = meth.args.args[0].arg if meth.args.args else None
+                if not selfname:
+                    continue
+                for n in ast.walk(meth):
+                    hit = None
+                    if isinstance(n, ast.Call) and isinstance(n.func, ast.Attribute) and n.func.attr in MUTATORS and \
+                            isinstance(n.func.value, ast.Attribute) and isinstance(n.func.value.value, ast.Name) and n.func.value.value.id == selfname:
+                        hit = f"{cnode.name}.{meth.name} calls self.{n.func.value.attr}.{n.func.attr}()"
+                    elif isinstance(n, (ast.Attribute, ast.Subscript)) and isinstance(n.ctx, (ast.Store, ast.Del)):
+                        root = n.value
+                        while isinstance(root, (ast.Attribute, ast.Subscript)):
+                            root = root.value
+                        if isinstance(root, ast.Name) and root.id == selfname:
+                            hit = f"{cnode.name}.{meth.name} stores to {ast.unparse(n)[:40]}"
+                    if hit:
+                        stateful_classes.setdefault(cnode.name, hit)
+                        break
+
         def walk_top(stmts, guard=""):
             for st in stmts:
                 if isinstance(st, (ast.Assign, ast.AnnAssign)) and getattr(st, "value", None) is not None:
@@ -113,6 +135,12 @@ def module_state(ctx, modnames):
                         base = fn.split("[")[0]
                         if base in MUTABLE_CALLS or base.split(".")[-1] in MUTABLE_CALLS:
                             kind = f"{fn}()"
+                    if kind is None and isinstance(v, ast.Call) and isinstance(v.func, ast.Name) and v.func.id in stateful_classes:
+                        # an instance of a class of this module whose methods change what it holds: state behind an object
+                        out.append({"kind": "module-mutable", "module": mn, "function": "<module>", "line": st.lineno, "file": src.rel,
+                                    "stmt": ast.unparse(st)[:120], "name": name,
+                                    "what": f"{v.func.id}() instance; {stateful_classes[v.func.id]}", "object": True})
+                        continue
                     if kind and not name.startswith("__"):
                         out.append({"kind": "module-mutable", "module": mn, "function": "<module>", "line": st.lineno, "file": src.rel,
                                     "stmt": ast.unparse(st)[:120], "name": name, "what": kind})
@@ -147,7 +175,7 @@ def module_state(ctx, modnames):
                 elif isinstance(node, ast.Subscript) and isinstance(node.ctx, (ast.Store, ast.Del)) and isinstance(node.value, ast.Attribute):
                     mutated.add(node.value.attr)
         for row in out:
-            if row["kind"] == "module-mutable" and row["module"] == mn and row["name"] not in mutated and \
+            if row["kind"] == "module-mutable" and row["module"] == mn and row["name"] not in mutated and not row.get("object") and \
                     not any(w in row["what"] for w in ("BytesIO", "bytearray", "StringIO", "deque", "array")):
                 row["kind"] = "module-container-readonly"
         for node in ast.walk(src.tree):
